@@ -6,7 +6,9 @@ items=corpus.corpus(W+'/snips')
 print(len(items),'designs')
 stats=collections.Counter(); reasons=collections.Counter(); bad=[]
 t0=time.time()
+import sys as _s
 for label,path in items:
+    print('..',label, round(time.time()-t0), file=_s.stderr, flush=True)
     out=os.path.join(W,'dump.json')
     env=dict(os.environ, TVDUMP_FEW_CONFIGS='1')
     try:
@@ -20,12 +22,13 @@ for label,path in items:
     for mod in d['netlists']['modules']:
         cfgs=[c for c in mod['configs'] if c['ok']]
         if not cfgs: stats['synth_rejects']+=1; continue
+        if len(cfgs[0]['netlist']['cells'])>20000: stats['too_big']+=1; continue
         rm=next((m for m in d['rtl']['modules'] if m['top']==mod['top']),None)
         if not rm or not rm['supported']:
             stats['rtl_unsupported']+=1; reasons[(rm or {}).get('reason','?')[:60]]+=1
         else:
             try:
-                r=miter.netlist_vs_rtl(cfgs[0]['netlist'], rm['rtl'], timeout_ms=20000)
+                r=miter.netlist_vs_rtl(cfgs[0]['netlist'], rm['rtl'], timeout_ms=10000)
                 stats['rtl_'+r['verdict']]+=1
                 if r['verdict'] in ('differs','inconclusive'): bad.append((label,mod['top'],{k:v for k,v in r.items() if k!='stimulus'}))
             except miter.Unsupported as e:
@@ -34,7 +37,7 @@ for label,path in items:
                 stats['rtl_miter_error']+=1; bad.append((label,mod['top'],repr(e)[:300]))
         for c in cfgs[1:]:
             try:
-                r=miter.netlist_vs_netlist(cfgs[0]['netlist'], c['netlist'], timeout_ms=20000)
+                r=miter.netlist_vs_netlist(cfgs[0]['netlist'], c['netlist'], timeout_ms=10000)
                 stats['cfg_'+r['verdict']]+=1
                 if r['verdict'] not in ('equal_inductive',): bad.append((label,mod['top'],c['cfg'],{k:v for k,v in r.items() if k not in('state','inputs')}))
             except miter.Unsupported as e:
